@@ -5,7 +5,7 @@ import "golang.org/x/tools/go/ssa"
 
 func init() {
 	register(&propDef{
-		ID: "C16",
+		ID:          "C16",
 		Explanation: "pilemerge: in Piler.merge every interval matched by the tree query is collected for replacement, hands its images to the merged interval, extends both ends of the merged interval, and is deleted (in a loop over the collected list) from the queried tree before the merged interval is inserted into that same tree — conservation of member features across merges. pileadd: Piler.Add looks the pair up in both orientations (two look-ups whose 2-element keys hold the same two values in swapped order) before the first change to the trees, merges both features, and records the pair on every successful return.",
 		NotDecided:  "that piles are exactly the connected components, disjointness, order independence, the overlap-slack arithmetic of pileInterval.Overlap/Range, the Piles filter (properties of the interval tree's contents at run time).",
 		Assumptions: []string{"interval.IntTree.DoMatching calls the callback for every overlapping interval; Delete/Insert behave as their names say"},
@@ -15,7 +15,7 @@ func init() {
 		},
 	})
 	register(&propDef{
-		ID: "C17",
+		ID:          "C17",
 		Explanation: "tables/alphabet: for each built-in alphabet the constructor arguments are read as constants (go/types constant values, through Must* wrappers and package-level variables) and checked against every clause the property states about definitions: letters distinct ASCII (up to case for case-insensitive alphabets); pairing strings equal length, ASCII, involutive, case preserving; every letter of the alphabet, in both cases, is paired with a letter of the alphabet; in four-letter alphabets index(complement(l)) == 3-index(l); the gap letter, when part of the alphabet, has index 0. bijection: NewPairing tests pair[pair[x]] == x for the letters of both definition strings. casefold: in the case-insensitive branch of newAlphabet every string ranged over or indexed to fill the tables derives from strings.ToLower/ToUpper of the definition. tablefill: every loop whose counter indexes a fixed-size lookup table (index, pair, ok, complements) covers the whole table.",
 		NotDecided:  "that newAlphabet/NewPairing/NewComplementor build the lookup tables these definitions describe, AllValid positions, constructor rejection of bad definitions (value-level behaviour).",
 		Assumptions: []string{"the constructors interpret (letters, pairing s, pairing c, gap, caseSensitive) positionally as their parameter names say"},
@@ -27,17 +27,18 @@ func init() {
 		},
 	})
 	register(&propDef{
-		ID: "C18",
+		ID:          "C18",
 		Explanation: "tables/quality: every Encoding constant other than None has a case in the decode switch and in the Encode switch of its own scale (Phred-offset encodings: Encoding.DecodeToQphred and Qphred.Encode; Solexa: Encoding.DecodeToQsolexa and Qsolexa.Encode); per encoding the additive constant of Encode equals the subtractive constant of Decode, no scale conversion is applied in between, and bound+offset == '~' so the offset covers exactly the printable range. The Solexa-scale Encode guard must be evaluated on the signed score (negative printable scores receive the offset), and only Illumina1_5 may clamp low bytes. signround: a float converted to the signed Solexa score is rounded symmetrically (+0.5 and -0.5 selected by sign, or math.Round).",
 		NotDecided:  "error probabilities, rounding, the Phred<->Solexa conversion tables, and the byte-level arithmetic inside each case (value-level).",
 		Assumptions: []string{"Encode's guarded `q += K` and Decode's `x - K` are the only offset arithmetic in their cases (otherwise UNDECIDED)"},
 		Run: func(c *Ctx) {
 			c.guard("signround", func() { ruleSignRound(c, "signround"); c.floor("signround", 2) })
+			c.guard("scorespace", func() { ruleScoreSpace(c, "scorespace", "Ephred", "Esolexa"); c.floor("scorespace", 2) })
 			c.guard("tables/quality", func() { ruleQuality(c) })
 		},
 	})
 	register(&propDef{
-		ID: "C03",
+		ID:          "C03",
 		Explanation: "guardidx: every constant index (direct, sub-slice, or through a helper summarised as indexing parameter i at parameter j) into a vector produced by bytes|strings.Split*/Fields in packages bed and gff is dominated, on every path, by a length guard that proves the index in range (producer facts + dominating len comparisons; helpers' vector parameters take the minimum bound over their call sites). panicval: from every function that defers a recover-to-error converter (handlePanic), every explicit panic reachable through the call graph carries a value that implements error and is not a runtime.Error, or is conditional on `param == const` and that value is excluded by dominating comparisons at every call site on the way. lineio/eofhang: with the reader at end of input (no bytes, io.EOF) no path whose branches are all decided by that condition returns to the read (the loop would never end). lencheck: every store of a quality score into the FASTQ sequence buffer is dominated by the sequence/quality length comparison (or an index bound), so a longer quality line yields the mismatch error, not an index panic. taintsize: an integer parsed from the input reaches a make() size, a slice bound or an index only after being bounded below and above by dominating comparisons (a negative or huge column would otherwise raise a runtime.Error that the recover handler re-panics).",
 		NotDecided:  "termination and the one-call-per-line bound (GFF metadata recursion), nil dereferences, failed type assertions, (nil, nil) returns, the FASTQ length check; FASTA/FASTQ readers have no converter (their only reachable explicit panic, Encoding.DecodeTo* default, is configuration-guarded).",
 		Assumptions: []string{"runtime index panics other than on split-field vectors are out of scope", "a converter re-panics exactly non-error and runtime.Error values (checked structurally)"},
@@ -46,7 +47,10 @@ func init() {
 			c.guard("taintsize", func() { ruleTaintSize(c, "taintsize", "io/featio/bed", "io/featio/gff"); c.floor("taintsize", 1) })
 			c.guard("lencheck", func() { ruleLenCheck(c, "lencheck"); c.floor("lencheck", 1) })
 			c.guard("sentinel", func() { ruleSentinel(c, "sentinel", "io/featio/bed", "io/featio/gff"); c.floor("sentinel", 2) })
-			c.guard("lineio/eofhang", func() { ruleEOFPaths(c, "lineio/eofhang", "", "io/featio/bed", "io/featio/gff"); c.floor("lineio/eofhang", 3) })
+			c.guard("lineio/eofhang", func() {
+				ruleEOFPaths(c, "lineio/eofhang", "", "io/featio/bed", "io/featio/gff")
+				c.floor("lineio/eofhang", 3)
+			})
 			c.guard("panicval", func() {
 				rulePanicVal(c, "panicval", "io/featio/bed", "io/featio/gff")
 				c.floor("panicval/root", 6)
@@ -56,7 +60,7 @@ func init() {
 		},
 	})
 	register(&propDef{
-		ID: "C04",
+		ID:          "C04",
 		Explanation: "lineio/eofdata: for every (*bufio.Reader).ReadBytes/ReadString call in bed and gff, an edge-sensitive forward search over the SSA CFG that follows only branches consistent with err == io.EOF (err followed through the alloc it is spilled to) must not reach a return before some instruction consults the bytes read — otherwise the unterminated final line is dropped. lineio/normalise: the raw line flows only into bytes.TrimSpace (or another trim) before any splitter or module parser, so CRLF and LF parse alike. lineio/fragments: for every ReadLine call in fasta and fastq, isPrefix decides a branch whose true edge goes straight back to the ReadLine call, the fragment is only the variadic source of append (never retained), and the loop-carried accumulator takes the append result on that edge. bufalias: as C02, for all four readers. lineio/eofclean: no return hands out a non-nil record together with the io.EOF that ended the final unterminated line (a caller reading until the first error would drop it).",
 		NotDecided:  "blank-line and trailing-blank handling as behaviour, equality of records under re-wrapping (value-level).",
 		Assumptions: []string{"bufio.Reader.ReadBytes returns the data read before an error together with that error; ReadLine never returns both data and an error and its buffer is only valid until the next read"},
@@ -68,12 +72,16 @@ func init() {
 			c.guard("lineio/fragments", func() { ruleFragments(c, "lineio/fragments", seqs...); c.floor("lineio/fragments", 10) })
 			c.guard("lineio/eofdata", func() { ruleDataOnEOF(c, "lineio/eofdata", seqs...) })
 			c.guard("lineio/rawline", func() { ruleRawLine(c, "lineio/rawline", seqs...); c.floor("lineio/rawline", 2) })
-			c.guard("bufalias", func() { ruleBufAlias(c, "bufalias", append(append([]string{}, feat...), seqs...)...); c.floor("bufalias", 4) })
+			c.guard("lineio/pendingeof", func() { rulePendingEOF(c, "lineio/pendingeof", seqs...); c.floor("lineio/pendingeof", 2) })
+			c.guard("bufalias", func() {
+				ruleBufAlias(c, "bufalias", append(append([]string{}, feat...), seqs...)...)
+				c.floor("bufalias", 4)
+			})
 			c.guard("lineio/eofclean", func() { ruleEOFPaths(c, "", "lineio/eofclean", feat...); c.floor("lineio/eofclean", 3) })
 		},
 	})
 	register(&propDef{
-		ID: "C01",
+		ID:          "C01",
 		Explanation: "bytecount: forward dataflow over go/cfg of fasta.(*Writer).Write, fastq.(*Writer).Write and writeHeader (and any other (int, error) method of a type with an io.Writer field): after every emitting call (io.Writer.Write, io.WriteString, fmt.Fprint*, module (int, error) writers) its count is pending until added to the result; a pending count at a success return, a plain assignment overwriting accumulated bytes, or a discarded count is a violation (returns inside `if err != nil` are error exits). lineio/fragments: both readers join ReadLine fragments before classifying a line and never retain bufio's buffer (physical lines > 4096 bytes). tables/markers: the constants the writers emit ('>' / '@' / '+' / \"+\\n\") equal the constants the readers classify on. tables/quality: Qphred.Encode and Encoding.DecodeToQphred agree on the offset of every Phred-offset encoding. prefixstrip: a record prefix that lines are classified on with HasPrefix is removed by length or TrimPrefix, never by a cutset trim (names that begin with the prefix character survive). lineio/fragments everychunk: every path back to ReadLine passes the isPrefix test. directsink: NewWriter stores the caller's io.Writer itself (no buffering wrapper), so reported counts are bytes emitted.",
 		NotDecided:  "that parsed names, descriptions, letters and scores equal what was written (value-level); header splitting; the four-state FASTQ classifier; empty sequences.",
 		Assumptions: []string{"fmt.Fprint*/io.Writer.Write/io.WriteString report the bytes they wrote", "returns inside `if err != nil` are error exits whose count is not part of the property"},
@@ -94,7 +102,7 @@ func init() {
 		},
 	})
 	register(&propDef{
-		ID: "C02",
+		ID:          "C02",
 		Explanation: "convpair: in package gff the start/end fields are derived from the Start()/End() methods; every value parsed from text (strconv.* or a same-package parse helper, followed through := locals) that is stored into a start field is the direct result of feat.OneToZero, values stored into end fields are not converted; every fmt.Fprint* argument in a gff.Writer method that reads a start field or calls .Start() is wrapped in feat.ZeroToOne, end reads are not converted — so GFF text is 1-based inclusive and features 0-based half-open on every path. bytecount: as C01, for bed.(*Writer).Write (incl. its deferred newline closure), gff.(*Writer).Write (incl. the deferred closure and the inline-sequence branch), WriteMetaData, WriteComment. bufalias: any view of bufio's internal buffer (ReadSlice/ReadLine/Peek result and everything sliced, trimmed or split from it) is dead before the reader is read again — checked interprocedurally through callee summaries — and never stored. zerocolour: the BED writer's \"0\" colour spelling is selected by a test that includes the alpha component (the reader maps \"0\" to RGBA{} and \"r,g,b\" to alpha 0xff). directsink: as C01 for the bed/gff writers. noskip: bed.Reader.Read and gff.Reader.Read read another line without a record or error only when the current line is blank or starts with '#'.",
 		NotDecided:  "equality of every field after a round trip, float formatting, attribute splitting, BED column-prefix semantics (reflect-driven format).",
 		Assumptions: []string{"feat.OneToZero/ZeroToOne implement the 1-based/0-based pair (their bodies are value-level)", "fmt.Fprint* report the bytes they wrote"},
@@ -118,7 +126,7 @@ func init() {
 		{"seq/multi", "(*Multi).Clone"},
 	}
 	register(&propDef{
-		ID: "C05",
+		ID:          "C05",
 		Explanation: "fresh/clonedeep: in every Clone() of linear.Seq/QSeq, alignment.Seq/QSeq/Row/QRow and multi.Multi, each slice-typed field of the returned object (found from the struct type, not by name) is assigned a freshly allocated value, and when its elements own storage (slices, or sequences behind an interface) every element stored is itself a fresh copy; interface/func typed fields are shared by design and exempt by type. loopdep: the offset each row receives in Multi.RevComp and Multi.Reverse depends on the loop's row variable — necessary for mirroring rows of unequal extent about the alignment's span. loopdep/span-taken-before-loop: no Start/End/Len of the alignment is evaluated inside the loop that re-offsets the rows (earlier iterations have already moved rows). qtravel: where RevComp/Reverse of linear.QSeq and alignment.QSeq store the letter field of elements they also store the quality field (or swap whole elements). The loop rules follow a helper method called once per row.",
 		NotDecided:  "that RevComp equals reverse-then-complement, involution, that qualities travel with letters, the middle element, strand negation (value-level).",
 		Assumptions: []string{"append(T(nil), x...), make, composite literals, X.Make(..) and Clone()/CloneAnnotation() results are newly allocated; Append/Copy chains stay in the storage of their root"},
@@ -146,12 +154,15 @@ func init() {
 		},
 	})
 	register(&propDef{
-		ID: "C06",
+		ID:          "C06",
 		Explanation: "fresh/freshdst: in sequtils.Join, Truncate, Stitch and Compose the argument of every SetSlice (on the destination and on the scratch reverser) is classified FRESH (X.Make(..) roots with Append/Copy chains, make, element stores of fresh values) unless the call sits in the then-branch of `dst == src` — so when destination and source differ the result shares no storage with the source and the source is never reversed in place. mustpass: in Compose, a must-dataflow over go/cfg (facts reset at the loop head) shows that every path reaching the append of the scratch reverser's slice has, in the same iteration, installed the current segment (SetSlice) and reversed it (RevComp|Reverse). runningend: in Stitch the test that chooses between extending the current span and opening a new one reads the running end that the extend branch updates with max(). runningend also requires the updated span to be the object the span list holds (element address or appended pointer, not a local copy). qtravel: as C05 (Compose reverses quality sequences through these methods).",
 		NotDecided:  "positional correctness of slice bounds, clipping arithmetic, Stitch's interval merge, Trim's optimality, error-not-panic for out-of-range arguments (value-level).",
 		Assumptions: []string{"alphabet.Slice.Make allocates; Append/Copy write into their receiver's storage or a grown copy of it"},
 		Run: func(c *Ctx) {
-			c.guard("fresh/freshdst", func() { ruleFreshDst(c, "fresh/freshdst", "Join", "Truncate", "Stitch", "Compose"); c.floor("fresh/freshdst", 7) })
+			c.guard("fresh/freshdst", func() {
+				ruleFreshDst(c, "fresh/freshdst", "Join", "Truncate", "Stitch", "Compose")
+				c.floor("fresh/freshdst", 7)
+			})
 			c.guard("slicebounds", func() { ruleSliceBounds(c, "slicebounds"); c.floor("slicebounds", 4) })
 			c.guard("mustpass", func() { ruleScratchReverse(c, "mustpass"); c.floor("mustpass", 1) })
 			c.guard("qtravel", func() {
@@ -162,7 +173,7 @@ func init() {
 		},
 	})
 	register(&propDef{
-		ID: "C07",
+		ID:          "C07",
 		Explanation: "fresh/retain: AppendColumns/AppendEach of alignment.Seq, alignment.QSeq, multi.Multi and multi.Set.AppendEach never store a slice-typed caller value into receiver storage — directly, as an append element, by spreading a slice of slices, or by passing it (or a loop-reused scratch buffer) to a method summarised as retaining its parameter (summaries computed for every method of seq/alignment, seq/multi, seq/linear). fresh/clonedeep: as C05 (Clone is deep). fresh/periter: a slice installed in the container inside a loop (append element, element store, SetSlice argument — AppendColumns/AppendEach and Multi.Flush) is allocated in that iteration, not carved with a 2-index slice from a loop-external buffer (pieces would overlap in spare capacity). padfromends: Multi.Flush pads a row by a difference of like coordinates (Start-Start or End-End), never of lengths.",
 		NotDecided:  "row-view = column-view equality, Delete/Flush/Subseq semantics, consensus (value-level).",
 		Assumptions: []string{"append(dst, xs...) copies the elements of xs; it retains xs only when the elements themselves are slices"},
@@ -207,7 +218,7 @@ func init() {
 	borderRow := map[string]bool{"NW": true, "NWAffine": true, "Fitted": true, "FittedAffine": true}
 	borderCol := map[string]bool{"NW": true, "NWAffine": true, "FittedAffine": true}
 	register(&propDef{
-		ID: "C09",
+		ID:          "C09",
 		Explanation: "sibling: for each of the six aligners, alignLetters and alignQLetters are compared as typed ASTs after canonicalisation (locals numbered by first use, alphabet.QLetters -> alphabet.Letters, X[e].L on a QLetters sequence -> X[e], *QLetters helper names -> *Letters, string literal contents and comments ignored): they must be the same program, which is the project's own mechanism for 'quality-carrying sequences give the same pairs'. argcheck: all twelve variants return ErrMatrixWrongSize under a comparison with alpha.Len() and ErrMatrixNotSquare inside the row loop before any table is indexed, and all six Align entry points return the four argument errors. livguard: every letter-index value (load from an alphabet.Index table) that flows through arithmetic into a subscript or a conversion to unsigned is sign-checked first: by a dominating comparison of that very value with 0, by an earlier loop over the same sequence whose negative edge returns and whose header dominates the use, or by a dominating AllValid/Validate call. livguard loop coverage: an earlier validating loop counts only if its check runs on every iteration and the linear forms of its index, bound and start value prove that it sweeps positions 0..len-1 of the same sequence. stride: in every subscript of the flattened matrix la[r*let+q] the index of a reference letter is multiplied by the row stride and the index of a query letter is not.",
 		NotDecided:  "path monotonicity, score bookkeeping, Format (value-level); that a validation loop covers every position (its bounds are value-level; the repository's validated-in-the-fill-loop idiom is accepted as is).",
 		Assumptions: []string{"alphabet.Index tables hold -1 exactly for letters outside the alphabet"},
@@ -243,7 +254,7 @@ func init() {
 		},
 	})
 	register(&propDef{
-		ID: "C08",
+		ID:          "C08",
 		Explanation: "dpstep: in all twelve align functions, wherever a score-matrix entry is added to DP-table cells (fill recurrences, affine layers through max2/max3/add, and traceback tests), the predecessor offset and the letters scored agree — p-c-1 with a[r][q], p-c with a[r][gap], p-1 with a[gap][q] (offsets decomposed against p = i*c+j, letters from the role of the letter index in the matrix subscript). stride: reference-letter indices select rows and query-letter indices columns of the flattened matrix. sibling: the Letters and QLetters variants are the same program. These are necessary conditions of the recurrences computing optimal scores; optimality itself (a maximum over exponentially many alignments) is value-level.",
 		NotDecided:  "that the maximum is taken over all three moves, the border initialisation values, tie-breaking in the traceback, the affine layer switching logic, SW's zero floor and end-cell choice, the fitted end-row selection — i.e. optimality as such.",
 		Assumptions: []string{"p = i*c+j addresses row i, column j of the table; rows are reference positions"},
@@ -262,7 +273,7 @@ func init() {
 		},
 	})
 	register(&propDef{
-		ID: "C10",
+		ID:          "C10",
 		Explanation: "livguard: in kmerindex every base code looked up through the alphabet index table ((*Index).ForEachKmerOf, KmerOf, (*Index).KmerOf or whichever functions index an alphabet.Index) is sign-checked by a dominating comparison before it is converted to the unsigned k-mer word — necessary for 'no invalid letter inside a reported k-mer'. This decides one guard, not the index's correctness. maskguard: kMask is Pow4(k)-1 and a k-mer is rejected exactly when it is > kMask. watermark: on the invalid-letter branch of ForEachKmerOf the value carried out equals the letter's position + 1 (difference of two linear forms in the same loop counter). tablefill: the alphabet's index table is initialised over its whole length (the scanner trusts negative entries for every non-letter byte). indexspace: every call site of ForEachKmerOf passes slice indices — not Start()/End() coordinates — for the parameters it uses as subscripts of s.Seq.",
 		NotDecided:  "the `high` watermark arithmetic, prefix-sum/bucket bounds, masks, GC/complement bit tricks, equality of reported positions with true occurrences (all value-level).",
 		Assumptions: []string{"alphabet.Index tables hold -1 exactly for letters outside the alphabet"},
@@ -276,36 +287,43 @@ func init() {
 			c.guard("tablefill", func() { ruleTableFill(c, "tablefill", "newAlphabet"); c.floor("tablefill", 1) })
 			c.guard("maskguard", func() { ruleMaskGuard(c, "maskguard"); c.floor("maskguard", 2) })
 			c.guard("indexspace", func() { ruleIndexSpace(c, "indexspace"); c.floor("indexspace", 2) })
-			c.guard("watermark", func() { ruleWatermark(c, "watermark", c.fn("index/kmerindex", "(*Index).ForEachKmerOf")); c.floor("watermark", 2) })
+			c.guard("watermark", func() {
+				ruleWatermark(c, "watermark", c.fn("index/kmerindex", "(*Index).ForEachKmerOf"))
+				c.floor("watermark", 2)
+			})
 			c.guard("demandedbits", func() { ruleDemandedBits(c, "demandedbits"); c.floor("demandedbits", 3) })
 			c.guard("minrange", func() { ruleMinRange(c, "minrange") })
 		},
 	})
 	register(&propDef{
-		ID: "C11",
+		ID:          "C11",
 		Explanation: "reset: the per-cycle state of Morass is computed as the fields written by Push, write, Finalise, Pull and their package-local callees (pos, len, fast, chunk, files, _err). For each such field, either Clear stores it on every path to its `return nil` (must-pass over the SSA CFG; the comm-clause assignment of a select counts only for its branch), or Finalise stores it on every path before reading it and Push/write never read it. Otherwise a value from the previous cycle survives Clear. gojoin (as C12): Finalise joins the background writers before it reads state they produce, so the in-memory/spilled decision cannot depend on writer progress. pooldrain: Clear takes a buffer back from the fixed-capacity pool in which every cycle parks one.",
 		NotDecided:  "sortedness, multiset equality, Pos/Len arithmetic (value-level).",
 		Assumptions: []string{"the API protocol: Push* Finalise Pull* Clear per cycle"},
 		Run: func(c *Ctx) {
 			c.guard("reset", func() { ruleReset(c, "reset"); c.floor("reset", 6) })
 			c.guard("pooldrain", func() { rulePoolDrain(c, "pooldrain"); c.floor("pooldrain", 1) })
+			c.guard("poolnil", func() { rulePoolNil(c, "poolnil"); c.floor("poolnil", 2) })
+			c.guard("poolmove", func() { rulePoolMove(c, "poolmove"); c.floor("poolmove", 3) })
 			// whether a cycle is in-memory or spilled must not be decided from state the
 			// background writers are still producing: Finalise joins before reading it
 			c.guard("gojoin", func() { ruleMorassJoin(c, "gojoin"); c.floor("gojoin", 1) })
 		},
 	})
 	register(&propDef{
-		ID: "C12",
+		ID:          "C12",
 		Explanation: "gojoin: for every go statement in package morass whose spawned function (transitively) writes Morass fields that Finalise reads, a sync.WaitGroup field joins it: Add dominates the go statement, the spawned function defers Done in its entry block, Wait dominates every read of the shared fields in Finalise, and err() is consulted on every path from Wait to `return nil`. lockset: in all code reachable from the background writer (and in setErr/err) every access to files holds filesLock and every access to _err holds errLock (must-hold lockset dataflow over the SSA CFG).",
 		NotDecided:  "absence of every data race (no happens-before model of channels beyond these idioms), deadlock freedom of the pool/writable protocol.",
 		Assumptions: []string{"Pull and Clear run after Finalise returned (the API protocol), so their unlocked accesses are ordered after the join", "sync.WaitGroup / sync.Mutex semantics"},
 		Run: func(c *Ctx) {
 			c.guard("gojoin", func() { ruleMorassJoin(c, "gojoin"); c.floor("gojoin", 1) })
 			c.guard("lockset", func() { ruleMorassLockset(c, "lockset"); c.floor("lockset", 4) })
+			c.guard("errslot", func() { ruleErrSlot(c, "errslot"); c.floor("errslot/sticky", 3) })
+			c.guard("poolreturn", func() { rulePoolReturn(c, "poolreturn"); c.floor("poolreturn", 1) })
 		},
 	})
 	register(&propDef{
-		ID: "C13",
+		ID:          "C13",
 		Explanation: "errslot/sticky: outside Clear/New every setErr call stores a value proven non-nil by a dominating `x != nil` test (or setErr only stores into an empty slot), so a later success cannot erase a recorded error. errslot/propagate: the error result of every ioutil.TempFile / gob Encode / Decode / os.File Sync / Seek call flows to a return or to setErr, and Push and Finalise consult err() on every path to `return nil`. residue: every end-of-data branch of Pull (assignment of io.EOF) is dominated by a test of AutoClear and by a test of AutoClean; CleanUp calls os.RemoveAll(m.dir). filepairing: after a successful temporary-file creation every path registers the file in m.files (or removes it) before returning, so a failed write cannot leave an untracked run file.",
 		NotDecided:  "that the delivered values are right after a fault; Close/Remove errors (not in the property's list); what the AutoClear/AutoClean branches remove (value-level).",
 		Assumptions: []string{"an error that reaches a return or the slot is reported by a subsequent Push/Finalise/Pull"},
@@ -313,10 +331,11 @@ func init() {
 			c.guard("errslot", func() { ruleErrSlot(c, "errslot"); c.floor("errslot/sticky", 3); c.floor("errslot/propagate", 6+2) })
 			c.guard("residue", func() { ruleResidue(c, "residue"); c.floor("residue", 5) })
 			c.guard("filepairing", func() { ruleTempFilePairing(c, "filepairing"); c.floor("filepairing", 1) })
+			c.guard("runretire", func() { ruleRunRetire(c, "runretire"); c.floor("runretire", 1) })
 		},
 	})
 	register(&propDef{
-		ID: "C19",
+		ID:          "C19",
 		Explanation: "closeonce: every close(ch) in package concurrent is classified by its enclosing function: if that function (or a closure ancestor, e.g. the deferred exit function of a worker) is started by a go statement inside a loop, the close must sit in a sync.Once.Do literal or be control-dependent on an atomic decrement reaching zero; a `len(ch) == n` test after a separate send is not accepted. Closers that are not loop-spawned (including a dedicated closer after WaitGroup.Wait) are single-instance and accepted. lockset: every access to the Promise mailbox (field message) happens with the promise's mutex m held on every path (must-hold lockset over the SSA CFG; unexported helpers take the intersection of their call sites' locksets; sync.Cond.Wait keeps the lock). sendafterdone: a worker never sends on the result channel after its wg.Done(), counting deferred functions in the order they run. broadcast: every mailbox put by a settling function is followed on every path by Cond.Broadcast; Cond.Signal is rejected. closebysender: a function-local channel that a goroutine started by the function sends on is never closed by the function itself.",
 		NotDecided:  "exactly one result per operation, Map's partition arithmetic, deadlock freedom in general, that Wait eventually returns (liveness).",
 		Assumptions: []string{"sync.Mutex/Cond/Once/WaitGroup semantics", "a goroutine literal started outside any loop runs once per call of its parent"},
@@ -326,17 +345,29 @@ func init() {
 			c.guard("sendafterdone", func() { ruleNoSendAfterDone(c, "sendafterdone"); c.floor("sendafterdone", 1) })
 			c.guard("closebysender", func() { ruleCloseBySender(c, "closebysender", "concurrent"); c.floor("closebysender", 1) })
 			c.guard("broadcast", func() { ruleBroadcast(c, "broadcast"); c.floor("broadcast", 1) })
+			c.guard("mailbox", func() {
+				ruleMailbox(c, "mailbox", "(*Promise).fulfill", "(*Promise).fail", "(*Promise).Wait")
+				c.floor("mailbox", 4)
+			})
+			c.guard("closerspawn", func() { ruleCloserSpawn(c, "closerspawn"); c.floor("closerspawn", 1) })
 		},
 	})
 	register(&propDef{
-		ID: "C20",
+		ID:          "C20",
 		Explanation: "appendalias: for every append whose first argument is a parameter (or receiver) slice in package feat/gene, if the result is mutated in place (sort.Sort/Stable/Slice, element store) while the parameter itself is still returned afterwards, a rejected update has already touched the caller's backing array (cap > len); building on fresh storage or on p[:len(p):len(p)] is accepted. commitlast: in NonCodingTranscript.SetExons, CodingTranscript.SetExons and Gene.SetFeatures no store to a receiver field can be followed (CFG reachability) by a return of a non-nil error. fresh/sortedfresh: Exons.Add sorts and returns newly allocated storage, never the receiver or the caller's variadic slice. orientwalk: an orientation multiplied into a composed orientation has been compared with NotOriented on every path.",
 		NotDecided:  "tiling of exons/introns/UTR/CDS, additive/multiplicative composition of positions and orientations, inverse of the 1-/0-based pair (value-level).",
 		Assumptions: []string{"append reuses spare capacity of its first argument"},
 		Run: func(c *Ctx) {
 			c.guard("appendalias", func() { ruleAppendAlias(c, "appendalias", "feat/gene"); c.floor("appendalias", 1) })
-			c.guard("orientwalk", func() { ruleOrientWalk(c, "orientwalk", "BaseOrientationOf", "OrientationWithin"); c.floor("orientwalk", 2) })
-			c.guard("fresh/sortedfresh", func() { ruleSortedFresh(c, "fresh/sortedfresh", "feat/gene", "Exons.Add"); c.floor("fresh/sortedfresh", 2) })
+			c.guard("orientwalk", func() {
+				ruleOrientWalk(c, "orientwalk", "BaseOrientationOf", "OrientationWithin")
+				c.floor("orientwalk", 2)
+			})
+			c.guard("fresh/sortedfresh", func() {
+				ruleSortedFresh(c, "fresh/sortedfresh", "feat/gene", "Exons.Add")
+				c.floor("fresh/sortedfresh", 2)
+			})
+			c.guard("exonoverlap", func() { ruleExonOverlap(c, "exonoverlap"); c.floor("exonoverlap", 1) })
 			c.guard("commitlast", func() {
 				ruleCommitLast(c, "commitlast", "feat/gene", "(*NonCodingTranscript).SetExons")
 				ruleCommitLast(c, "commitlast", "feat/gene", "(*CodingTranscript).SetExons")
@@ -346,7 +377,7 @@ func init() {
 		},
 	})
 	register(&propDef{
-		ID: "C14",
+		ID:          "C14",
 		Explanation: "tables/ukkonen: the return expression of filter.MinWordsPerFilterHit is normalised as a polynomial over its parameters (straight-line locals substituted) and must equal n + 1 - k*e - k; every call passes (minimum match length, word size, error bound) in those roles (roles derived from filter.New's field initialisers). emitguard: each of the addHit call sites is reached exactly on the edge where tube.Count >= minKmersPerHit (inclusive; SSA dominating branches with polarity), and every reset of a tube's Count to a constant is preceded on every path by a comparison of Count with minKmersPerHit (or the tube is known empty). A higher or exclusive threshold, or a retirement without the test, is a guaranteed false negative. gridperiod: the recycling tick is re-armed with the same field tubeIndex divides by. runstate: f.tubes is assigned a newly made slice on every path before the k-mer scan. gojoin (as C12): hits pushed to the sorter cannot be lost to an unjoined background writer.",
 		NotDecided:  "tube geometry, ticker recycling, diagonal arithmetic — i.e. the no-false-negative theorem itself (value-level). This decides two necessary conditions only.",
 		Assumptions: []string{"Rasmussen/Stoye/Myers: U(n,q,e) = n + 1 - q(e+1) q-grams are shared by any e-match of length n"},
@@ -356,16 +387,20 @@ func init() {
 			// the filter's hits are handed to a morass sorter: none may be lost between Push and Pull
 			c.guard("gojoin", func() { ruleMorassJoin(c, "gojoin"); c.floor("gojoin", 1) })
 			c.guard("gridperiod", func() { ruleGridPeriod(c, "gridperiod"); c.floor("gridperiod", 1) })
+			c.guard("tubeend", func() { ruleTubeEnd(c, "tubeend"); c.floor("tubeend", 1) })
+			c.guard("kmerdist", func() { ruleKmerDist(c, "kmerdist"); c.floor("kmerdist", 1) })
 			c.guard("runstate", func() { ruleRunState(c, "runstate"); c.floor("runstate", 1) })
 		},
 	})
 	register(&propDef{
-		ID: "C15",
+		ID:          "C15",
 		Explanation: "emitguard: the only send on the DP kernel's result channel is in alignRecursion and is reached solely over edges on which both extents (Bepos-Bbpos, Aepos-Abpos) are >= minLen and the error estimate is <= maxDiff (SSA dominating branches with polarity, operands identified by field), the hit's Error field is assigned that same tested value on a dominating path, and AlignTraps wires minLen from the aligner's minimum hit length and maxDiff as 1 - minId. runstate: the filter's tube states are re-made on every Filter call before the scan (stale counts of the other strand's pass would be mistaken for matches). The trapezoid pre-filter in AlignTraps compares the trapezoid height with the word size k only.",
 		NotDecided:  "score <= optimal global score of the hit regions, in-bounds coordinates, recall of planted repeats, self-match suppression (value-level). This decides one clause only.",
 		Assumptions: []string{"the kernel's Hit fields Abpos/Aepos/Bbpos/Bepos are the hit's begin/end positions on the two sequences"},
 		Run: func(c *Ctx) {
 			c.guard("emitguard", func() { ruleDPEmit(c, "emitguard"); c.floor("emitguard", 6) })
+			c.guard("dupclass", func() { ruleDupClass(c, "dupclass"); c.floor("dupclass", 4) })
+			c.guard("ownedfilter", func() { ruleOwnedFilter(c, "ownedfilter"); c.floor("ownedfilter", 2) })
 			c.guard("runstate", func() { ruleRunState(c, "runstate"); c.floor("runstate", 1) })
 		},
 	})
